@@ -40,6 +40,7 @@
 #include <tins/ethernetII.h>
 #include <tins/rawpdu.h>
 #include <tins/exceptions.h>
+#include <tins/detail/sequence_number_helpers.h>
 
 using std::make_pair;
 using std::bind;
@@ -345,12 +346,12 @@ void Stream::server_recovery_mode_handler(Stream& stream, uint32_t sequence_numb
 bool Stream::recovery_mode_handler(Flow& flow, uint32_t sequence_number,
                                    uint32_t recovery_sequence_number_end) {
     // If this packet comes after our sequence number (would create a hole), skip it
-    if (sequence_number > flow.sequence_number() &&
-        sequence_number <= recovery_sequence_number_end) {
+    if (Internals::seq_compare(sequence_number, flow.sequence_number()) > 0 &&
+        Internals::seq_compare(sequence_number, recovery_sequence_number_end) <= 0) {
         flow.advance_sequence(sequence_number);
     }
     // Return true iff we need to keep being in recovery mode
-    return recovery_sequence_number_end > sequence_number;
+    return Internals::seq_compare(recovery_sequence_number_end, sequence_number) > 0;
 }
 
 } // TCPIP
